@@ -11,6 +11,7 @@ StdoutPure, Alive and ErrorsListed on the observations."""
 import json
 import os
 import random
+import sys as sys_
 
 from .. import kc, ktree, servercheck, storecheck
 from ..common import MachineryFailure
@@ -57,6 +58,26 @@ KINDS = {
 }
 
 
+HUGE_HEX_ABSTRACT = "7fffffff"
+HUGE_HEX = "f" * 4000
+
+# the same tree with 1200 more options beside the ones the requests talk about (none of them is ever mentioned)
+WIDE_PADDING = "".join('config ZZW%d\n    bool "padding %d"\n\n' % (i, i) for i in range(1200))
+
+
+def loads_big(text):
+    """json.loads for the harness's own reading of replies, which may carry numbers of thousands of digits (the
+    interpreter's limit stays in force for the server under test)."""
+    if not hasattr(sys_, "set_int_max_str_digits"):
+        return json.loads(text)
+    limit = sys_.get_int_max_str_digits()
+    sys_.set_int_max_str_digits(0)
+    try:
+        return json.loads(text)
+    finally:
+        sys_.set_int_max_str_digits(limit)
+
+
 def good(ver=3, **kw):
     r = {"ver": ["ok", ver], "load": ["absent"], "save": ["absent"], "set": ["absent"], "reset": ["absent"]}
     r.update(kw)
@@ -92,6 +113,9 @@ def rows():
         ("reset unknown", good(reset=["list", [["s", "NOPE"], ["s", "I"]]])),
         ("reset unknown menu", good(reset=["list", [["s", "no-such-menu-1"], ["s", "I"]]])),
         ("reset menu", good(reset=["list", [["s", "menu:M"]]])),
+        ("reset all", good(reset=["list", [["s", "all"]]], set=["obj", [["I", ["i", "9"]]]])),
+        # a valid hex value of thousands of digits (for the specification: the largest number of its universe)
+        ("set hex to a huge number", good(set=["obj", [["H", ["s", HUGE_HEX_ABSTRACT]], ["MB", ["b", "y"]]]])),
         # client text that ends up quoted in error messages: console-markup look-alikes must stay inert
         ("set unknown [/tag]", good(set=["obj", [["NO[/SUCH]", ["b", "y"]], ["I", ["i", "9"]]]])),
         ("set unknown [tag]", good(set=["obj", [["[bold]NOPE", ["b", "y"]], ["I", ["i", "9"]]]])),
@@ -130,7 +154,7 @@ def rows():
 
 def _is_obj(text):
     try:
-        return isinstance(json.loads(text), dict)
+        return isinstance(loads_big(text), dict)
     except ValueError:
         return False
 
@@ -159,7 +183,7 @@ def concrete(line, paths, nofiles, rev_ids):
     if r["set"][0] == "bad":
         c["set"] = KINDS[r["set"][1]][1]
     elif r["set"][0] == "obj":
-        c["set"] = {n: servercheck.json_value(jv) for n, jv in r["set"][1]}
+        c["set"] = {n: (HUGE_HEX if jv == ["s", HUGE_HEX_ABSTRACT] else servercheck.json_value(jv)) for n, jv in r["set"][1]}
     if r["reset"][0] == "bad":
         c["reset"] = KINDS[r["reset"][1]][1]
     elif r["reset"][0] == "list":
@@ -197,23 +221,49 @@ def main(run):
         variants.append((name, [pre, line, post]))
         if tier == "thorough" or hash(name) % 3 == 0:
             variants.append((name + " (twice)", [line, pre, line, post]))
+    # a request that is refused (or whose file part fails) names a file; the next request saves to "the last used
+    # path" (save: null): that is still the file the session started on
+    savenull = good(save=["null"])
+    for nm, ln in (
+        ("unsupported version naming a save path", ["req", dict(good()[1], ver=["ok", 99], save=["path", 2])]),
+        ("unsupported version naming a load path", ["req", dict(good()[1], ver=["ok", 0], load=["path", 2])]),
+        ("non-integer version naming a save path", ["req", dict(good()[1], ver=["bad", "str"], save=["path", 2])]),
+        ("load of a missing file", good(load=["nofile", 0])),
+        ("save into a missing directory", good(save=["nofile", 2])),
+    ):
+        variants.append((nm + ", then save null", [pre, ln, savenull, post]))
     if tier == "thorough":
         rng = random.Random(run.seed)
         for _ in range(400):
             a, b = rng.choice(table), rng.choice(table)
             variants.append(("%s ; %s" % (a[0], b[0]), [pre, a[1], b[1], post]))
-    for name, lines in variants:
+    # the version the server is started in (--version) is not the version of the requests it then gets: every
+    # row also runs against a server started in protocol version 1 or 2
+    kwide = kc.write_text(os.path.join(d, "wide", "Kconfig"), text + "\n" + WIDE_PADDING) if os.makedirs(os.path.join(d, "wide"), exist_ok=True) is None else None
+    kw_ = kc.Kconfig(kwide)
+    kc.reset_report(kw_)
+    wide_rev = {v: kk for kk, v in servercheck.id_map(kw_, item["prog"] + [mk_config("ZZW%d" % i, "bool", prompt=Y) for i in range(1200)]).items()}
+    started = []
+    for k_, (name, lines) in enumerate(variants):
+        started.append((name, lines, 3))
+        if name in ("reset all", "reset menu", "reset unknown", "set unknown", "bad json"):
+            started.append((name + " (wide tree: 1200 more options)", lines, "wide"))
+        if " (twice)" not in name and " ; " not in name:
+            v0 = 1 + k_ % 2
+            started.append(("%s (server started with --version %d)" % (name, v0), lines, v0))
+    for name, lines, ver0 in started:
         lines = lines + [good(save=["path", 2])]
         kc.write_text(p1, f1)
         if os.path.exists(pfinal):
             os.unlink(pfinal)
-        conc = [concrete(ln, paths, nofiles, rev_ids) for ln in lines]
-        out, err, exc = servercheck.run_server_lines(kpath, p1, 3, conc)
+        wide = ver0 == "wide"
+        conc = [concrete(ln, paths, nofiles, wide_rev if wide else rev_ids) for ln in lines]
+        out, err, exc = servercheck.run_server_lines(kwide if wide else kpath, p1, 3 if wide else ver0, conc)
         obs = {"died": exc is not None, "died_at": len(out), "exception": "%s: %s" % (type(exc).__name__, str(exc)[:160]) if exc is not None else "", "nlines": len(out), "pure": True, "impure_line": "", "saved": [], "errors": []}
         msgs = []
         for ln in out:
             try:
-                m = json.loads(ln)
+                m = loads_big(ln)
                 if not isinstance(m, dict):
                     raise ValueError("not an object")
                 msgs.append(m)
@@ -226,7 +276,9 @@ def main(run):
             obs["errors"].append(False)
         if os.path.exists(pfinal):
             with open(pfinal) as f:
-                obs["saved"] = [[n, v, dd] for n, v, dd in storecheck.parse_sdkconfig(f.read(), info)]
+                obs["saved"] = [[n, v, dd] for n, v, dd in storecheck.parse_sdkconfig(f.read(), info) if not n.startswith("ZZW")]
+        with open(p1) as f:
+            obs["first"] = [[n, v, dd] for n, v, dd in storecheck.parse_sdkconfig(f.read(), info) if not n.startswith("ZZW")]
         sessions.append({"name": name, "lines": lines, "final_path": 2, "obs": obs, "conc": conc})
         for junk in ("adir.old", "does-not-exist.old"):
             pj = os.path.join(d, junk)
@@ -245,7 +297,7 @@ def main(run):
 
     nsub = 0
     for s_ in sessions:
-        if not any(x in s_["name"] for x in ("[", "markup", "huge integer", "deeply nested")) or " (twice)" in s_["name"] or " ; " in s_["name"]:
+        if not any(x in s_["name"] for x in ("[", "markup", "huge integer", "deeply nested")) or " (twice)" in s_["name"] or " ; " in s_["name"] or "(server started" in s_["name"] or "(wide tree" in s_["name"]:
             continue
         kc.write_text(p1, f1)
         if os.path.exists(pfinal):
@@ -273,6 +325,7 @@ def main(run):
     ktree.strings_of(item["prog"], strings)
     ktree.strings_of([s["lines"] for s in sessions], strings)
     ktree.strings_of([s["obs"]["saved"] for s in sessions], strings)
+    ktree.strings_of([s["obs"]["first"] for s in sessions], strings)
     tab = ktree.tables(strings)
     files = [[{"n": n, "v": v, "d": bool(dd), "u": bool(info.get(n, {}).get("type") == "bool" and v == "n")} for n, v, dd in storecheck.parse_sdkconfig(f1, info)], []]
     path = run.sub("srv15.json")
